@@ -12,7 +12,7 @@ from .. import build, sp
 ID = "C16"
 META = {
     "technique": "runtime monitoring: permutation/stability/attachment postcondition on the real SortBlocksByTypeAndKeyMiddleware.transform over enumerated small libraries x all type orders x both comment modes",
-    "level_text": "All libraries of up to 3 blocks over a 19-block universe (equal keys across types, empty key, failed/duplicate/middleware-error blocks, both comment kinds) x all 326 sub-permutations of the five block types x both comment modes, plus random libraries of 4-40 blocks with leading/inner/trailing comment runs, are sorted by the real middleware; the result must be a permutation (fingerprints), sorted stably by (rank, key), keep each comment run above its block, leave the input untouched and share no mutable object with it. Libraries edited after construction (every library of 2-3 universe blocks with one block removed or re-added; 30 % of the random ones with 1-8 remove/re-add/add/replace steps) are sorted as well.",
+    "level_text": "All libraries of up to 3 blocks over a 19-block universe (equal keys across types, empty key, failed/duplicate/middleware-error blocks, both comment kinds) x all 326 sub-permutations of the five block types x both comment modes, plus random libraries of 4-40 blocks with leading/inner/trailing comment runs, are sorted by the real middleware; the result must be a permutation (fingerprints), sorted stably by (rank, key), keep each comment run above its block, leave the input untouched and share no mutable object with it. Libraries edited after construction (every library of 2-3 universe blocks with one block removed or re-added; 30 % of the random ones with 1-8 remove/re-add/add/replace steps) are sorted as well. The universe includes middleware-error blocks around comments and a @string and a duplicate-field block.",
     "level_note": "rank uses the exact class; blocks without a key sort with key ''; the place of a trailing comment-only run is not prescribed (only that it stays contiguous and in order)",
 }
 RULE = ("case = (library spec, type order, preserve_comments); non-trivial = the library has >= 2 blocks of one class with equal keys or a "
